@@ -15,7 +15,9 @@ Inductive c19case :=
     (* counters after PlanQuery *)
 | GrowthCase (points : list (N * list N))
     (* (n, counters) of one family at successive sizes *)
-| RuntimeCase (points : list (N * (N * N))).
+| RuntimeCase (points : list (N * (N * N)))
+| ImplementersCase (points : list (N * (N * N))).
+    (* (0, (m implementers, planning work of PlanQuery on one fixed document)) *)
     (* (k runtime types encountered, (m implementers, planning calls during ExecutePlan)) *)
 
 Definition fuel : nat := 400.
@@ -74,6 +76,8 @@ Definition check (c : c19case) : N :=
          (fst p =? fst q) && negb (snd (snd p) =? snd (snd q))) pts) pts then 2
     else if existsb (fun p => 2 * fst p + 2 <? snd (snd p)) pts then 2
     else 0
+  | ImplementersCase pts =>
+    if existsb (fun p => existsb (fun q => negb (snd (snd p) =? snd (snd q))) pts) pts then 2 else 0
   end.
 
 Fixpoint bad (cs : list (N * c19case)) : list (N * N) :=
